@@ -16,21 +16,21 @@ func init() { Registry["C12"] = C12 }
 // c12Probe describes how the effective value of one inheritable setting is observed at the
 // top-level position of a method.
 type c12Probe struct {
-	key     string
-	values  []string // the non-absent spellings; for booleans: bare yes no
-	isBool  bool
-	dflt    string // effective value when absent everywhere ("no"/"yes" for booleans, "" for valued)
-	types   string // type declarations, %[1]s = suffix
-	method  string // method declaration, %[1]s = suffix, %[2]s = method name
-	mlines  []string
-	clines  []string // extra converter lines
-	funcs   string   // custom functions (once per file)
-	kind    string   // success | text
+	key    string
+	values []string // the non-absent spellings; for booleans: bare yes no
+	isBool bool
+	dflt   string // effective value when absent everywhere ("no"/"yes" for booleans, "" for valued)
+	types  string // type declarations, %[1]s = suffix
+	method string // method declaration, %[1]s = suffix, %[2]s = method name
+	mlines []string
+	clines []string // extra converter lines
+	funcs  string   // custom functions (once per file)
+	kind   string   // success | text
 	// expectation from the effective value
-	succeeds func(eff string) bool        // kind success
-	marker   func(eff string) []string    // kind text: substrings that must be present in the method body
-	absent   func(eff string) []string    // kind text: substrings that must NOT be present
-	opposite func(eff string) string      // the explicit spelling siblings get
+	succeeds func(eff string) bool     // kind success
+	marker   func(eff string) []string // kind text: substrings that must be present in the method body
+	absent   func(eff string) []string // kind text: substrings that must NOT be present
+	opposite func(eff string) string   // the explicit spelling siblings get
 	// deep: the probe position is a nested named/enum pair. It is converted inline when the method's value is `inline`,
 	// otherwise by a generated sub-method that is documented (and pinned) to take the converter-level value.
 	deep   bool
@@ -208,10 +208,10 @@ func C12(e *core.Env) int {
 	os.MkdirAll(root, 0o755)
 	os.WriteFile(filepath.Join(root, "go.mod"), []byte("module vcase\n\ngo 1.22\n"), 0o644)
 	type cell struct {
-		probe          c12Probe
+		probe           c12Probe
 		cli, conv, meth string
-		siblings       bool
-		name           string
+		siblings        bool
+		name            string
 	}
 	var cells []cell
 	n := 0
@@ -582,10 +582,10 @@ func c12Invalid(e *core.Env, rep *core.Report, bin, root string) {
 // whichever method triggers its creation first.
 func c12Shared(e *core.Env, rep *core.Report, bin, root string) {
 	type sc struct {
-		key              string
-		conv, meth       string // yes | no | ""
-		first            bool   // the alphabetically first method carries the setting
-		name             string
+		key        string
+		conv, meth string // yes | no | ""
+		first      bool   // the alphabetically first method carries the setting
+		name       string
 	}
 	var scs []sc
 	i := 0
